@@ -70,6 +70,7 @@ func (pj *internalParsedJson) findStructuralIndices() bool {
 
 		index := indexChan{}
 		offset := atomic.AddUint64(&pj.buffersOffset, 1)
+		verifEvent(pj, 1, offset)
 		index.indexes = &pj.buffers[offset%indexSlots]
 
 		// In case last index during previous round was stripped back, put it back
@@ -135,13 +136,17 @@ func (pj *internalParsedJson) findStructuralIndices() bool {
 			index.length -= 1
 		}
 
+		verifEvent(pj, 2, uint64(index.length))
 		pj.indexChans <- index
+		verifEvent(pj, 3, 0)
 		indexTotal += index.length
 
 		buf = buf[processed:]
 		position -= processed
 	}
+	verifEvent(pj, 4, 0)
 	pj.indexChans <- indexChan{index: -1}
+	verifEvent(pj, 5, 0)
 
 	// a valid JSON file cannot have zero structural indexes - we should have found something
 	return error_mask == 0 && indexTotal > 0
